@@ -95,6 +95,16 @@ func genAtMostOnce(seed uint64, tier, variant string) any {
 		// a slow server around the moment the connection lifetime ends
 		p.Faults = append(p.Faults, FaultSpec{Kind: "slow", AtStep: r.IntN(120), NeedInflight: true, Pick: r.IntN(4), DurMs: pick(r, 1200, 2000, 4000)})
 	}
+	if variant == "lifetime" && r.IntN(2) == 0 {
+		// directed at the recovery of a batch that was cut in the middle: short lifetimes, replies delivered in pieces,
+		// several slow episodes, mostly the pipelined path (where the client keeps the replies it has read)
+		p.Opt.ConnLifetimeMs = pick(r, 60, 150, 400, 1000)
+		p.Opt.AlwaysPipelining = r.IntN(4) != 0
+		p.Sched.CutProb = pick(r, 0.3, 0.7, 1.0)
+		for i, n := 0, 1+r.IntN(6); i < n; i++ {
+			p.Faults = append(p.Faults, FaultSpec{Kind: "slow", AtStep: r.IntN(250), NeedInflight: true, Pick: r.IntN(4), DurMs: pick(r, 1100, 1500, 2500)})
+		}
+	}
 	return p
 }
 
